@@ -436,8 +436,13 @@ fn op_authorize(world: &J, op: &J) -> R<J> {
     if j != 0 {
         call["schema"] = ffi_schema(&world["schemaSources"][j - 1])?;
     }
-    let ans = ffi::is_authorized_json(call).map_err(|e| format!("is_authorized_json: {e}"))?;
-    Ok(json!({"ffi": project_ffi_authz(&ans), "api": api_authorize(world, k, j, validate, ri)?}))
+    let ans = ffi::is_authorized_json(call.clone()).map_err(|e| format!("is_authorized_json: {e}"))?;
+    // the three entry points of one FFI call (JSON value, JSON string, typed) must present one answer;
+    // a disagreement is recorded as ["split"], which no specification answer equals
+    let via_str: J = ffi::is_authorized_json_str(&call.to_string()).ok().and_then(|s| serde_json::from_str(&s).ok()).unwrap_or(J::Null);
+    let via_typed: J = match serde_json::from_value::<ffi::AuthorizationCall>(call) { Ok(c) => serde_json::to_value(ffi::is_authorized(c)).unwrap_or(J::Null), Err(_) => J::Null };
+    let f = if project_ffi_authz(&via_str) == project_ffi_authz(&ans) && project_ffi_authz(&via_typed) == project_ffi_authz(&ans) && via_str["type"] == ans["type"] && via_typed["type"] == ans["type"] { project_ffi_authz(&ans) } else { json!(["split"]) };
+    Ok(json!({"ffi": f, "api": api_authorize(world, k, j, validate, ri)?}))
 }
 
 fn mode_of(m: &str) -> R<ValidationMode> {
@@ -462,8 +467,14 @@ fn op_validate(world: &J, op: &J) -> R<J> {
         "schema": ffi_schema(&world["schemaSources"][j - 1])?,
         "policies": ffi_policy_set(&world["polSources"][k - 1])?,
     });
-    let ans = ffi::validate_json(call).map_err(|e| format!("validate_json: {e}"))?;
-    let f = if ans["type"] == "success" {
+    let ans = ffi::validate_json(call.clone()).map_err(|e| format!("validate_json: {e}"))?;
+    let via_str: J = ffi::validate_json_str(&call.to_string()).ok().and_then(|s| serde_json::from_str(&s).ok()).unwrap_or(J::Null);
+    let via_typed: J = match serde_json::from_value::<ffi::ValidationCall>(call) { Ok(c) => serde_json::to_value(ffi::validate(c)).unwrap_or(J::Null), Err(_) => J::Null };
+    let ids_of = |a: &J, k: &str| -> Vec<String> { let mut v: Vec<String> = a[k].as_array().into_iter().flatten().filter_map(|x| x["policyId"].as_str().map(String::from)).collect(); v.sort(); v };
+    let same = |a: &J| a["type"] == ans["type"] && ids_of(a, "validationErrors") == ids_of(&ans, "validationErrors") && ids_of(a, "validationWarnings") == ids_of(&ans, "validationWarnings");
+    let f = if !(same(&via_str) && same(&via_typed)) {
+        json!(["split"])
+    } else if ans["type"] == "success" {
         let ids: BTreeSet<String> = ans["validationErrors"].as_array().into_iter().flatten().filter_map(|x| x["policyId"].as_str().map(String::from)).collect();
         let warn: BTreeSet<String> = ans["validationWarnings"].as_array().into_iter().flatten().filter_map(|x| x["policyId"].as_str().map(String::from)).collect();
         let n = ans["validationErrors"].as_array().map(|a| a.len()).unwrap_or(0);
